@@ -9,8 +9,8 @@ From CandidV Require Import Consts model.Leb model.Hash model.Gfp.
 From CandidV Require Export model.Wire model.Annot.
 Open Scope N_scope.
 
-Definition tmap := list (ty * N).
-Fixpoint tm_find (m : tmap) (t : ty) : option N :=
+Definition tmap := list (ty * nat).
+Fixpoint tm_find (m : tmap) (t : ty) : option nat :=
   match m with [] => None | (k, i) :: r => if ty_eqb t k then Some i else tm_find r t end.
 
 Definition prim_code (p : prim) : N :=
@@ -22,7 +22,7 @@ Definition prim_code (p : prim) : N :=
   | PEmpty => op_empty | PPrincipal => op_principal
   end.
 Definition enc_code (c : N) : list N := enc_s (- Z.of_N c).
-Definition enc_idx (i : N) : list N := enc_s (Z.of_N i).
+Definition enc_idx (i : nat) : list N := enc_s (Z.of_nat i).
 
 (* [rec_find_type] for a name, the type itself otherwise *)
 Definition actual (E : env) (t : ty) : option ty := match t with TVar _ => trace E t | _ => Some t end.
@@ -98,6 +98,12 @@ Fixpoint set_nth {A} (n : nat) (x : A) (l : list A) : list A :=
 
 Definition tstate := (tmap * list (list N))%type.
 
+Fixpoint fold_build (bt : tstate -> ty -> option tstate) (s : tstate) (cs : list ty) : option tstate :=
+  match cs with
+  | [] => Some s
+  | c :: r => match bt s c with Some s' => fold_build bt s' r | None => None end
+  end.
+
 Fixpoint build (f : nat) (E : env) (s : tstate) (t : ty) {struct f} : option tstate :=
   match f with
   | O => None
@@ -113,12 +119,7 @@ Fixpoint build (f : nat) (E : env) (s : tstate) (t : ty) {struct f} : option tst
         | _ =>
           if composite a then
             let idx := length (snd s) in
-            let s1 : tstate := ((t, N.of_nat idx) :: fst s, snd s ++ [[]]) in
-            match (fix go (s : tstate) (cs : list ty) : option tstate :=
-                     match cs with
-                     | [] => Some s
-                     | c :: r => match build f' E s c with Some s' => go s' r | None => None end
-                     end) s1 (components a) with
+            match fold_build (build f' E) ((t, idx) :: fst s, snd s ++ [[]]) (components a) with
             | None => None
             | Some s2 =>
                 match enc_entry E (fst s2) a with
@@ -132,11 +133,7 @@ Fixpoint build (f : nat) (E : env) (s : tstate) (t : ty) {struct f} : option tst
     end
   end.
 
-Fixpoint build_all (f : nat) (E : env) (s : tstate) (ts : list ty) : option tstate :=
-  match ts with
-  | [] => Some s
-  | t :: r => match build f E s t with Some s' => build_all f E s' r | None => None end
-  end.
+Definition build_all (f : nat) (E : env) (s : tstate) (ts : list ty) : option tstate := fold_build (build f E) s ts.
 
 Definition build_fuel (E : env) (ts : list ty) : nat := S (S (length (nodes E ts))).
 
